@@ -368,7 +368,9 @@ Lemma get_nodes_circ : forall ch v pat,
   match pat with
   | [] => Err IndexError
   | [p] =>
-      if mem p (map fst ch) then gnwv (Circ ch) v [[p]]
+      if mem p (map fst ch) then
+        (if fix_short F && match assoc p ch with Some s => is_circ s | None => false end then Ok []
+         else gnwv (Circ ch) v [[p]])
       else if String.eqb p all then
         if existsb (fun c => is_circ (snd c)) ch
         then seq_concat (map (fun x : string * (bool * res (list path)) => let '(n, (isc, r)) := x in named v ch n isc r) (sub_res v ch [all]))
@@ -421,15 +423,26 @@ Proof.
     unfold resolvable_gen in R. cbn [chk] in R.
     destruct (mem p (map fst ch)) eqn:M.
     + apply mem_In in M. apply in_map_iff in M as [[n s] [E Hin]]. cbn in E. subst n.
-      rewrite (assoc_In _ _ _ ND Hin) in R. destruct s as [nd|ch']; [|cbn in R; discriminate].
-      rewrite (gnwv_leaf ch v p nd (assoc_In _ _ _ ND Hin)). f_equal. cbn [den].
-      rewrite (flat_map_single _ ch p (Leaf nd) ND Hin).
-      * rewrite String.eqb_refl, orb_true_r. reflexivity.
-      * intros [n s] Hc Hn. cbn in Hn.
-        assert (E1 : String.eqb p all = false).
-        { apply String.eqb_neq. intro E. subst p. apply NA. apply in_map_iff. exists (all, Leaf nd). auto. }
-        assert (E2 : String.eqb p n = false) by (apply String.eqb_neq; congruence).
-        rewrite E1, E2. reflexivity.
+      rewrite (assoc_In _ _ _ ND Hin) in R. rewrite (assoc_In _ _ _ ND Hin).
+      assert (E1 : String.eqb p all = false).
+      { apply String.eqb_neq. intro E. subst p. apply NA. apply in_map_iff. exists (all, s). auto. }
+      assert (OTH : forall c : string * tree, In c ch -> fst c <> p ->
+                (let '(n, s0) := c in if String.eqb p all || String.eqb p n then
+                   match s0 with
+                   | Leaf nd => if has_var v nd then [[n]] else []
+                   | Circ _ => if String.eqb p all then map (cons n) (den s0 v [all]) else []
+                   end else []) = []).
+      { intros [n s0] Hc Hn. cbn in Hn. assert (E2 : String.eqb p n = false) by (apply String.eqb_neq; congruence).
+        rewrite E1, E2. reflexivity. }
+      destruct s as [nd|ch'].
+      * cbn [is_circ]. rewrite andb_false_r.
+        rewrite (gnwv_leaf ch v p nd (assoc_In _ _ _ ND Hin)). f_equal. cbn [den].
+        rewrite (flat_map_single _ ch p (Leaf nd) ND Hin OTH).
+        rewrite String.eqb_refl, orb_true_r. reflexivity.
+      * (* proposed repair: the last name is a sub-circuit and denotes no node *)
+        cbn [is_circ] in *. rewrite R. cbn [andb]. f_equal. cbn [den].
+        rewrite (flat_map_single _ ch p (Circ ch') ND Hin OTH).
+        rewrite String.eqb_refl, orb_true_r, E1. reflexivity.
     + apply mem_false in M. destruct (String.eqb p all) eqn:E1.
       * apply String.eqb_eq in E1. subst p.
         destruct (existsb (fun c => is_circ (snd c)) ch) eqn:EC.
@@ -473,7 +486,7 @@ Proof.
       unfold path in *. rewrite F0 by (apply den_NoDup; exact W).
       cbn [bind]. apply gnwv_id. intros q Hq. apply (den_gnt _ v W _ _ Hq).
     + (* named level *)
-      rewrite assoc_sub_res. rewrite (assoc_map (fun s => (is_circ s, chk (fix_D31 F) false false s (r :: rest)))) in R.
+      rewrite assoc_sub_res. rewrite (assoc_map (fun s => (is_circ s, chk (fix_D31 F) false (fix_short F) s (r :: rest)))) in R.
       destruct (assoc p ch) as [s|] eqn:Ea; cbn [option_map] in *.
       2:{ (* proposed repair of D31: the level is missing and nothing is denoted *)
           rewrite R. f_equal. cbn [den]. symmetry. apply flat_map_nil. intros [n s] Hin.
@@ -685,11 +698,11 @@ Proof.
 Qed.
 
 (* from the resolved requests to the DataFrame *)
-Lemma finish_ok : forall L U lv, lv <> [] -> covers L U (map cr_var lv) = true ->
-  (forall x, In x lv -> snd x = false -> units U (cr_var x) = 1) ->
-  finish L false lv = Ok (map (col_of L) (flat_map (cr_cols U) lv)).
+Lemma finish_ok : forall pw L U lv, lv <> [] -> covers L U (map cr_var lv) = true ->
+  (pw = false -> forall x, In x lv -> snd x = false -> units U (cr_var x) = 1) ->
+  finish pw L false lv = Ok (map (col_of L) (flat_map (cr_cols U) lv)).
 Proof.
-  intros L U lv NE C NP. unfold finish.
+  intros pw L U lv NE C NP. unfold finish.
   rewrite (map_res_ok _ (fun x => the_src L (cr_var x))).
   2:{ intros x Hx. apply (proj1 (covers_src L U _ (cr_var x) C (in_map cr_var _ _ Hx))). }
   cbn [bind]. destruct lv as [|x0 lv0] eqn:Elv; [congruence|]. rewrite <- Elv in *. clear NE.
@@ -698,9 +711,10 @@ Proof.
   destruct (covers_src L U _ v C) as [_ HL]; [apply (in_map cr_var _ _ Hx)|].
   unfold cr_var, cr_cols, cr_lab in *. cbn [fst snd] in *.
   destruct (the_src L v) as [vec idxs] eqn:Es. cbn [snd] in HL.
-  destruct ex.
+  destruct ex; [|destruct pw]; cbn [orb].
   - f_equal. apply (expand_unit L lab v vec idxs _ Es HL).
-  - specialize (NP _ Hx eq_refl). cbn [fst snd] in NP. rewrite NP in *.
+  - f_equal. apply (expand_unit L lab v vec idxs _ Es HL).
+  - specialize (NP eq_refl _ Hx eq_refl). cbn [fst snd] in NP. rewrite NP in *.
     destruct idxs as [|i [|i' r]]; cbn in HL; try lia. f_equal.
     unfold cr_var. cbn [fst snd]. rewrite NP. rewrite <- (expand_unit L lab v vec [i] 1 Es eq_refl). reflexivity.
 Qed.
@@ -812,7 +826,8 @@ Qed.
    the backend source of the unit that l names (col_of); column_value_slot turns that source into state slot pos. *)
 Theorem run_columns_spec : forall t L U f reqs, f <> ListFormOld ->
   wfb t = true -> reqs_resolvable_gen F t reqs = true -> all_found t reqs = true -> reqs <> [] ->
-  (f = DictForm -> (fix_overlap F = false -> no_overlap t reqs = true) /\ no_pop_in_wildcard t U reqs = true) ->
+  (f = DictForm -> (fix_overlap F = false -> no_overlap t reqs = true) /\
+                   (fix_popwild F = false -> no_pop_in_wildcard t U reqs = true)) ->
   covers L U (requested t f reqs) = true ->
   run_columns_gen F t L f reqs = Ok (map (col_of L) (spec_columns t U f reqs)).
 Proof.
@@ -825,16 +840,16 @@ Proof.
     rewrite <- dict_lv_spec. apply finish_ok.
     + apply dict_lv_nonempty; assumption.
     + rewrite dict_lv_vars. exact C.
-    + intros x Hx Ex. unfold no_pop_in_wildcard in NP. rewrite forallb_forall in NP.
+    + intros PW x Hx Ex. specialize (NP PW). unfold no_pop_in_wildcard in NP. rewrite forallb_forall in NP.
       apply Nat.eqb_eq. apply NP. apply dict_lv_wild; assumption.
   - unfold run_columns_gen. rewrite (positions_list_spec t L reqs [] W R A). cbn [bind].
     fold (requested t ListForm reqs). unfold spec_columns. fold (requested t ListForm reqs).
     set (vs := requested t ListForm reqs) in *.
-    rewrite (finish_ok L U (map (fun v => ([join "/" v], v, true)) vs)).
+    rewrite (finish_ok (fix_popwild F) L U (map (fun v => ([join "/" v], v, true)) vs)).
     + f_equal. f_equal. rewrite flat_map_concat_map, map_map, <- flat_map_concat_map. reflexivity.
     + intro E. apply map_eq_nil in E. revert E. apply requested_list_nonempty; assumption.
     + rewrite map_map. unfold cr_var. cbn [fst snd]. rewrite map_id. exact C.
-    + intros x Hx Ex. apply in_map_iff in Hx as [v [Ev _]]. subst x. discriminate.
+    + intros _ x Hx Ex. apply in_map_iff in Hx as [v [Ev _]]. subst x. discriminate.
 Qed.
 
 (* ... and with an injective index map (C04's theorem, here a hypothesis) two different requested units are read
@@ -857,6 +872,17 @@ Theorem run_columns_spec_asis : forall t L U f reqs, f <> ListFormOld ->
 Proof.
   intros t L U f reqs NF W R A NE G C. apply (run_columns_spec asis); try assumption.
   intro E. split; [intro X; discriminate X | auto].
+Qed.
+
+(* the code with the two further proposed repairs (pattern ending at a circuit, population inside a wildcard key):
+   only the guard `pattern not too long` and the layout hypothesis remain *)
+Theorem run_columns_spec_allfixes : forall t L U f reqs, f <> ListFormOld ->
+  wfb t = true -> reqs_resolvable_gen allfixes t reqs = true -> all_found t reqs = true -> reqs <> [] ->
+  covers L U (requested t f reqs) = true ->
+  run_columns_gen allfixes t L f reqs = Ok (map (col_of L) (spec_columns t U f reqs)).
+Proof.
+  intros t L U f reqs NF W R A NE C. apply (run_columns_spec allfixes); try assumption.
+  intro E. split; intro X; discriminate X.
 Qed.
 
 (* the code before those repairs *)
